@@ -1,185 +1,268 @@
 """C02 — the global recorder is installed at most once and is seen whole by everyone."""
-from facts import Sym, path_is, strip_generics, strip_sym, sym_arg, sym_is_call, sym_str
+from facts import PredFlow, Sym, path_is, strip_generics, strip_sym, sym_arg, sym_is_call, sym_str, sym_walk
 from props.common import (
-    ORDER_RANK,
     aggregates,
     arg_syms,
     atomic_ops,
-    bool_switches,
-    calls_to,
     crate_stats,
-    field_accesses,
+    drop_blocks_of,
     need,
     nonforeign_calls,
-    one_method,
-    ordering_of,
     orderings_in,
-    variant_edges,
 )
+from props.c01 import is_cell_load, with_recorder_leaves
 from props.witness import witness_rule
 
 TITLE = "C02 global recorder installed at most once, published whole."
 CONFIGS = ["test-profile"]
 CELL = "metrics::recorder::cell::RecorderOnceCell"
+# The cell's private methods (`set`, `new`, and whatever helpers they are split into) are spliced into their callers:
+# the rules speak about the exported entry point set_global_recorder, the static of the cell type, and the function
+# in the "reader of the cell" role (kept as a function because with_recorder dispatches on its result).
+KEEP = [is_cell_load]
+WRITES = ("store", "swap", "compare_exchange", "compare_exchange_weak", "fetch_add", "fetch_sub", "fetch_or", "fetch_and", "fetch_xor", "fetch_max", "fetch_min", "fetch_update", "fetch_nand")
+RELEASING = ("Release", "AcqRel", "SeqCst")
+ACQUIRING = ("Acquire", "AcqRel", "SeqCst")
+
+
+def cint(s):
+    s = strip_sym(s)
+    return s[2] if s[:2] == ("const", "int") else None
+
+
+def _mentions_static(s, path):
+    return any(isinstance(x, tuple) and len(x) >= 3 and x[0] == "const" and x[2] == path for x in sym_walk(s))
+
+
+def cas_flow(fn, cas_call):
+    """P = "the compare_exchange of this call succeeded" propagated over fn's body (helpers spliced in)."""
+    bb = cas_call.bb
+
+    def is_cas(s):
+        s = strip_sym(s)
+        if not (isinstance(s, tuple) and s and s[0] == "call"):
+            return False
+        return any(isinstance(n, str) and path_is(n, "compare_exchange") for n in (s[1], s[3]))
+
+    def csw(subj, variant):
+        if is_cas(subj):
+            return {"Ok": "P", "Err": "N"}.get(variant)
+        return None
+
+    def cbool(s):
+        s = strip_sym(s)
+        if not (isinstance(s, tuple) and s and s[0] == "call" and isinstance(s[1], str)):
+            return None
+        a0 = strip_sym(s[2][0]) if s[2] else None
+        if a0 is None or not is_cas(a0):
+            return None
+        if path_is(s[1], "Result<T, E>::is_ok"):
+            return ("P", "N")
+        if path_is(s[1], "Result<T, E>::is_err"):
+            return ("N", "P")
+        other = strip_sym(s[2][1]) if len(s[2]) > 1 else None
+        is_ok_lit = other is not None and other[0] == "agg" and other[2] == "Ok"
+        if is_ok_lit and (path_is(s[1], "PartialEq::eq") or s[1].endswith("::eq")):
+            return ("P", "T")
+        if is_ok_lit and (path_is(s[1], "PartialEq::ne") or s[1].endswith("::ne")):
+            return ("T", "P")
+        return None
+
+    return PredFlow(fn, csw, cbool)
 
 
 def run(ctx):
     chk = ctx.check
     m = ctx.crate("metrics")
     crate_stats(chk, m)
-    chk.rule("C02.a", "WMC+TBL state machine: three pairwise distinct state constants; the only writes to `state` are one compare_exchange(UNINIT->INITIALIZING) and one store(INITIALIZED) on its success edge; only new/set/try_load touch the cell's fields; set_global_recorder -> GLOBAL_RECORDER.set; with_recorder reads only through try_load; GLOBAL_RECORDER is the only cell", floor=8)
-    chk.rule("C02.b", "ORD+ATOM publication: UnsafeCell write on the CAS-success edge, dominating store(INITIALIZED) with ordering >= Release; try_load's state load >= Acquire dominates the UnsafeCell read, which is control-dependent on == INITIALIZED", floor=5)
-    chk.rule("C02.c", "OWN hand-back: every non-success return builds Err(SetRecorderError(recorder)) from the parameter; Box::leak / forget / into_raw only on the success edge; the parameter is never dropped on a normal path", floor=4)
+    chk.rule("C02.a", "WMC+TBL state machine (set_global_recorder with the cell's helpers spliced in): three pairwise distinct state constants; the only atomic writes to the cell's state are one strong compare_exchange(UNINIT->INITIALIZING) and one publishing write of INITIALIZED that is reachable only if that CAS succeeded; nothing else writes the cell; exactly one static of the cell type, used only by set_global_recorder and with_recorder; with_recorder reads the cell afresh on every emission", floor=7)
+    chk.rule("C02.b", "ORD+ATOM publication: the UnsafeCell write happens only after a successful CAS and dominates the publishing write, whose ordering is >= Release; the reader's state load is >= Acquire and its UnsafeCell read is reachable only if the loaded state == INITIALIZED", floor=5)
+    chk.rule("C02.c", "OWN hand-back: every SetRecorderError is built from the recorder parameter; Box::leak / forget / into_raw only after a successful CAS; every return passes through the publishing write or through Err(SetRecorderError(recorder)); the parameter is never dropped on a normal path", floor=4)
     chk.rule("C02.d", "TYPE: set_global_recorder rejects non-Sync (E0277) and non-'static (E0597) recorders; twins compile", floor=4)
-    chk.trust("core::sync::atomic::Atomic<usize>::{compare_exchange,store,load}", "UnsafeCell::get", "ptr::write/read", "Box::new", "Box::leak")
+    chk.trust("core::sync::atomic::Atomic<usize>::{compare_exchange,store,swap,load}", "UnsafeCell::get", "ptr::write/read", "Box::new", "Box::leak")
     chk.residue.append("the C++11 memory-model argument itself (CAS gives one winner; Release/Acquire publishes the pointer) is trusted; the rules check its premises and do not explore interleavings")
 
-    setf = one_method(chk, "C02.a", m, CELL, "set")
-    load = one_method(chk, "C02.a", m, CELL, "try_load")
-    newf = one_method(chk, "C02.a", m, CELL, "new")
-    if not (setf and load and newf):
+    # ---- the one static of the cell type
+    statics = [f for f in m.fns if f.dk == "Static" and CELL in f.j.get("sty", "")]
+    ok_static = len(statics) == 1
+    chk.ob("C02.a", "statics of type RecorderOnceCell", ok_static, f"{[s.path for s in statics]}", statics[0].loc() if statics else "")
+    if not ok_static:
         return
-    b = setf.body
-    ops = atomic_ops(setf)
-    cas = [o for o in ops if o[1] in ("compare_exchange", "compare_exchange_weak")]
-    stores = [o for o in ops if o[1] == "store"]
-    others = [o for o in ops if o[1] not in ("compare_exchange", "store", "load")]
-    ok_shape = len(cas) == 1 and cas[0][1] == "compare_exchange" and len(stores) == 1 and not others
-    chk.ob("C02.a", f"{setf.path} [state writes]", ok_shape, "one strong compare_exchange + one store" if ok_shape else f"atomic ops on the cell in set(): {[o[1] for o in ops]} (swap/weak CAS/extra writes break single-winner)", setf.loc())
-    if not ok_shape:
+    GLOBAL = statics[0].path
+    sgr = m.fn("metrics::recorder::set_global_recorder")
+    loads = m.role(is_cell_load)
+    if len(loads) != 1:
+        chk.unrecognised("C02.a", "<anchor> reader of the cell", f"expected one method of the cell returning Option<&'static dyn Recorder>, found {[f.path for f in loads]}")
+    if not need(chk, "C02.a", "set_global_recorder", sgr) or len(loads) != 1:
+        return
+    load = loads[0]
+    b = sgr.body
+    sy = Sym(sgr)
+
+    def on_cell(recv):
+        return recv is not None and _mentions_static(recv, GLOBAL)
+
+    ops = [o for o in atomic_ops(sgr) if on_cell(o[2])]
+    cas = [o for o in ops if o[1].startswith("compare_exchange")]
+    writes = [o for o in ops if o[1] in WRITES and not o[1].startswith("compare_exchange") and not b.blocks[o[0].bb].get("cleanup")]
+    ok_cas = len(cas) == 1 and cas[0][1] == "compare_exchange"
+    chk.ob("C02.a", f"{sgr.path} [one strong CAS elects the installer]", ok_cas, "exactly one compare_exchange on GLOBAL_RECORDER's state" if ok_cas else f"atomic operations on the cell while installing: {[o[1] for o in ops]} — the installer is not elected by one strong compare_exchange (check-then-act, swap or weak CAS break single-winner / spurious hand-back)", sgr.loc())
+    if not ok_cas:
         chk.floors = {}
         chk.rules = {k: v for k, v in chk.rules.items() if chk.count(k)}
         return
     casc, _, _, casargs = cas[0]
-    stc, _, _, stargs = stores[0]
-
-    def cint(s):
-        s = strip_sym(s)
-        return s[2] if s[:2] == ("const", "int") else None
-
+    flow = cas_flow(sgr, casc)
+    pub = [o for o in writes if flow.at(o[0].bb) == "P"]
+    stray = [o for o in writes if flow.at(o[0].bb) != "P"]
+    ok_w = len(pub) == 1 and not stray
+    chk.ob("C02.a", f"{sgr.path} [state writes]", ok_w, f"besides the CAS, one `{pub[0][1]}` of the state, reachable only after the CAS succeeded" if ok_w else f"state writes besides the CAS: {[(o[1], 'after successful CAS' if flow.at(o[0].bb) == 'P' else 'NOT confined to the CAS-success path') for o in writes]} (expected exactly one publishing write, on the success path)", (stray or pub or [cas[0]])[0][0].loc())
+    if not ok_w:
+        chk.floors = {}
+        chk.rules = {k: v for k, v in chk.rules.items() if chk.count(k)}
+        return
+    stc, stm, _, stargs = pub[0]
     uninit, initing, inited = cint(casargs[1]), cint(casargs[2]), cint(stargs[1])
-    new_ops = [c for c in nonforeign_calls(newf) if c.is_("Atomic<usize>::new", "AtomicUsize::new")]
-    init0 = cint(arg_syms(new_ops[0])[0]) if new_ops else None
+    init0 = None
+    for c in nonforeign_calls(statics[0]):
+        if c.is_("Atomic<usize>::new", "AtomicUsize::new", "Atomic<T>::new"):
+            init0 = cint(arg_syms(c)[0])
     distinct = None not in (uninit, initing, inited) and len({uninit, initing, inited}) == 3
-    chk.ob("C02.a", f"{CELL} [state constants]", distinct and init0 == uninit, f"UNINIT={uninit} INITIALIZING={initing} INITIALIZED={inited}, new() starts at {init0}", setf.loc())
+    chk.ob("C02.a", f"{CELL} [state constants]", distinct and init0 == uninit, f"UNINIT={uninit} INITIALIZING={initing} INITIALIZED={inited}, the static starts at {init0}", sgr.loc())
 
-    # who touches the fields
-    for field, allowed in (("state", {"new", "set", "try_load"}), ("recorder", {"new", "set", "try_load"})):
-        acc = field_accesses(m, CELL, field)
-        users = {f.path for (f, _, _, _) in acc if not f.j.get("derived")}
-        bad = sorted(u for u in users if strip_generics(u).split("::")[-1] not in allowed or CELL not in strip_generics(u))
-        chk.ob("C02.a", f"{CELL}.{field} [who-may-touch]", not bad and users, f"touched only by {sorted(strip_generics(u).split('::')[-1] for u in users)}" if not bad else f"also touched by {bad}", setf.loc())
-
-    # plumbing
-    sgr = m.fn("metrics::recorder::set_global_recorder")
-    if need(chk, "C02.a", "set_global_recorder", sgr):
-        cs = calls_to(sgr, "RecorderOnceCell::set")
-        a = arg_syms(cs[0]) if cs else []
-        ok = len(cs) == 1 and len(nonforeign_calls(sgr)) == 1 and strip_sym(a[0])[:3] == ("const", "static", "metrics::recorder::GLOBAL_RECORDER") and (sym_arg(a[1]) or (None,))[0] == 0
-        chk.ob("C02.a", sgr.path, ok, "GLOBAL_RECORDER.set(recorder)" if ok else f"calls {[c.resolved for c in nonforeign_calls(sgr)]}", sgr.loc())
-    # statics of the cell type
-    statics = [f for f in m.fns if f.dk == "Static" and CELL in f.j.get("sty", "")]
-    chk.ob("C02.a", "statics of type RecorderOnceCell", len(statics) == 1 and statics[0].path == "metrics::recorder::GLOBAL_RECORDER", f"{[s.path for s in statics]}", statics[0].loc() if statics else "")
-    # readers of GLOBAL_RECORDER
-    users = {}
+    # who writes the cell / who mentions the static (in the program with helpers spliced in)
+    writers, users = set(), set()
     for f in m.fns:
-        if f.j.get("file", "").endswith(".rs") and _uses_static(f, "metrics::recorder::GLOBAL_RECORDER"):
-            users[f.path] = f
-    bad = []
-    for p, f in users.items():
-        for c in nonforeign_calls(f):
-            a = arg_syms(c)
-            if a and strip_sym(a[0])[:3] == ("const", "static", "metrics::recorder::GLOBAL_RECORDER") and not c.is_("RecorderOnceCell::set", "RecorderOnceCell::try_load"):
-                bad.append((p, c.resolved))
-    chk.ob("C02.a", "GLOBAL_RECORDER [who-may-call]", not bad and users, f"used by {sorted(users)} only through set/try_load" if not bad else f"other access: {bad}")
+        if not f.j.get("file", "").endswith(".rs"):
+            continue
+        root = f
+        while root.parent is not None:
+            root = root.parent
+        if _uses_static(f, GLOBAL):
+            users.add(strip_generics(root.path))
+        for c, meth, recv, a in atomic_ops(f) if f.parent is None else ():
+            if meth in WRITES and recv is not None and CELL in repr(_recv_types(f, c)):
+                writers.add(strip_generics(root.path))
+    want_users = {strip_generics(sgr.path), "metrics::recorder::with_recorder"}
+    chk.ob("C02.a", "GLOBAL_RECORDER [who-may-use]", users == want_users, f"used only by {sorted(u.split('::')[-1] for u in users)}" if users == want_users else f"the static is used by {sorted(users)}; expected exactly {sorted(want_users)}")
+    chk.ob("C02.a", "RecorderOnceCell state [who-may-write]", writers <= {strip_generics(sgr.path)}, "only set_global_recorder writes the cell's state" if writers <= {strip_generics(sgr.path)} else f"the state is also written by {sorted(writers - {strip_generics(sgr.path)})}")
 
     # emissions without a local recorder read the cell on every call (no per-thread or global cache of a miss)
-    from props.c01 import with_recorder_leaves
-
     wrf = m.fn("metrics::recorder::with_recorder")
     if need(chk, "C02.a", "with_recorder", wrf):
         res = with_recorder_leaves(wrf)
-        okl = res["n_user_calls"] == 3 and res["found"]["global"] is not None and res["found"]["noop"] is not None
+        inf = res["info"]
+        # every recorder the closure may receive is the local one, the Some payload of a try_load() made in this very
+        # call, or the no-op recorder chosen because that try_load() returned None
+        okl = (
+            any(i["global_payload"] and i["some_tl"] for i in inf)
+            and any(i["noop_payload"] and i["none_tl"] for i in inf)
+            and all((i["local_payload"] and i["some_get"]) or (i["global_payload"] and i["some_tl"]) or (i["noop_payload"] and i["none_tl"]) for i in inf)
+        )
         chk.ob("C02.a", f"{wrf.path} [reads the cell on every emission]", okl, "the global leaf is the Some payload of GLOBAL_RECORDER.try_load() evaluated in this call; the no-op leaf is gated by that call returning None" if okl else "with_recorder does not dispatch on a fresh GLOBAL_RECORDER.try_load() result (cached lookup? a miss would be remembered)", wrf.loc())
 
     # ---- C02.b publication
-    edges = variant_edges(b, casc.t["target"]) if b.term(casc.t["target"])["k"] == "switch" else {}
-    ok_edge = ("Ok" in edges) and True
-    writes = [c for c in nonforeign_calls(setf) if c.is_("ptr::mut_ptr::write", "<impl *mut T>::write", "ptr::write", "UnsafeCell<T>::get_mut", "mem::replace")]
-    wr = [c for c in writes if c.is_("write") or True]
-    wr = [c for c in nonforeign_calls(setf) if strip_generics(c.resolved or "").endswith("::write") or c.is_("ptr::write")]
-    if len(wr) != 1 or not ok_edge:
-        chk.unrecognised("C02.b", f"{setf.path} [cell write]", f"expected one raw write into the UnsafeCell and an Ok edge after the CAS; writes={[c.resolved for c in wr]} edges={list(edges)}", setf.loc())
+    wr = [c for c in nonforeign_calls(sgr) if (strip_generics(c.resolved or "").endswith("::write") or c.is_("ptr::write", "mem::replace", "UnsafeCell<T>::replace")) and not b.blocks[c.bb].get("cleanup")]
+    wr = [c for c in wr if _mentions_static(arg_syms(c)[0], GLOBAL)]
+    if len(wr) != 1:
+        chk.unrecognised("C02.b", f"{sgr.path} [cell write]", f"expected one raw write into the cell's UnsafeCell, found {[c.resolved for c in wr]}", sgr.loc())
     else:
         w = wr[0]
-        okedge = (casc.t["target"], edges["Ok"])
-        on_success = b.edge_dominates(okedge, w.bb)
-        # the written pointer comes from UnsafeCell::get(&self.recorder)
         ws = arg_syms(w)
-        dst_ok = sym_is_call(ws[0], "UnsafeCell<T>::get") and "'recorder'" in repr(ws[0])
-        chk.ob("C02.b", f"{setf.path} [write on CAS-success edge]", on_success and dst_ok, "UnsafeCell write only reachable through the Ok edge of the CAS" if on_success and dst_ok else f"write not confined to the success edge (edge-dominated={on_success}, dest={sym_str(ws[0])})", w.loc())
+        on_success = flow.at(w.bb) == "P"
+        dst_ok = sym_is_call(ws[0], "UnsafeCell<T>::get")
+        chk.ob("C02.b", f"{sgr.path} [write on CAS-success path]", on_success and dst_ok, "UnsafeCell write only reachable after the CAS succeeded" if on_success and dst_ok else f"write not confined to the success path (after successful CAS={on_success}, dest={sym_str(ws[0])[:80]})", w.loc())
         dom = b.dominates(w.bb, stc.bb) and w.bb != stc.bb
-        chk.ob("C02.b", f"{setf.path} [write before publish]", dom, "the cell write dominates store(INITIALIZED)" if dom else "store(INITIALIZED) is reachable without the cell write having happened (publish hoisted above initialisation)", stc.loc())
+        chk.ob("C02.b", f"{sgr.path} [write before publish]", dom, "the cell write dominates the publishing write of INITIALIZED" if dom else "the publishing write of INITIALIZED is reachable without the cell write having happened (publish hoisted above initialisation)", stc.loc())
         so = orderings_in(stargs)
-        okord = len(so) == 1 and so[0] in ("Release", "SeqCst")
-        chk.ob("C02.b", f"{setf.path} [publish ordering]", okord, f"store ordering {so}" + ("" if okord else " — must be >= Release to publish the pointer"), stc.loc())
-        st_on_success = b.edge_dominates(okedge, stc.bb)
-        chk.ob("C02.b", f"{setf.path} [store on success edge]", st_on_success, "store(INITIALIZED) only on the CAS-success edge" if st_on_success else "store(INITIALIZED) reachable on the failure path", stc.loc())
-    # try_load
+        okord = len(so) == 1 and so[0] in RELEASING
+        chk.ob("C02.b", f"{sgr.path} [publish ordering]", okord, f"{stm} ordering {so}" + ("" if okord else " — must be >= Release to publish the pointer"), stc.loc())
+        # the value written is Some(leaked box of the parameter)
+        val = ws[1] if len(ws) > 1 else None
+        from_param = val is not None and any(isinstance(x, tuple) and x and x[0] == "arg" and x[1] == 0 for x in sym_walk(val))
+        chk.ob("C02.b", f"{sgr.path} [installs the parameter]", from_param, "the cell receives a value built from the recorder parameter" if from_param else f"the cell receives {sym_str(val)[:100]}", w.loc())
+    # the reader
     lb = load.body
     lops = atomic_ops(load)
-    loads = [o for o in lops if o[1] == "load"]
-    reads = [c for c in nonforeign_calls(load) if strip_generics(c.resolved or "").endswith("::read") or c.is_("ptr::read")]
-    if len(loads) != 1 or len(reads) != 1 or len(lops) != 1:
+    lds = [o for o in lops if o[1] == "load"]
+    reads = [c for c in nonforeign_calls(load) if strip_generics(c.resolved or "").endswith("::read") or c.is_("ptr::read", "read_volatile")]
+    if len(lds) != 1 or len(reads) != 1 or len(lops) != 1:
         chk.unrecognised("C02.b", f"{load.path}", f"expected one state load and one raw read, found atomics {[o[1] for o in lops]} reads {len(reads)}", load.loc())
     else:
-        lo = orderings_in(loads[0][3])
-        okord = len(lo) == 1 and lo[0] in ("Acquire", "SeqCst")
-        chk.ob("C02.b", f"{load.path} [consume ordering]", okord, f"load ordering {lo}" + ("" if okord else " — must be >= Acquire"), loads[0][0].loc())
-        # find the comparison switch
-        gate = None
-        for bb, d, t_t, f_t in bool_switches(lb):
-            d = strip_sym(d)
-            if d[0] == "bin" and d[1] in ("Eq", "Ne"):
-                l, r = strip_sym(d[2]), strip_sym(d[3])
-                cst = l if l[0] == "const" else r
-                oth = r if l[0] == "const" else l
+        lo = orderings_in(lds[0][3])
+        okord = len(lo) == 1 and lo[0] in ACQUIRING
+        chk.ob("C02.b", f"{load.path} [consume ordering]", okord, f"load ordering {lo}" + ("" if okord else " — must be >= Acquire"), lds[0][0].loc())
+
+        def cbool(s):
+            s = strip_sym(s)
+            if isinstance(s, tuple) and s and s[0] == "bin" and s[1] in ("Eq", "Ne"):
+                l, r = strip_sym(s[2]), strip_sym(s[3])
+                cst, oth = (l, r) if l[0] == "const" else (r, l)
                 if cst[:2] == ("const", "int") and sym_is_call(oth, "load"):
-                    eq_target = t_t if d[1] == "Eq" else f_t
-                    gate = (bb, eq_target, cst[2])
-        if gate is None:
-            chk.unrecognised("C02.b", f"{load.path} [gate]", "no comparison of the loaded state with a constant found", load.loc())
-        else:
-            bb, eq_t, val = gate
-            conf = lb.edge_dominates((bb, eq_t), reads[0].bb)
-            chk.ob("C02.b", f"{load.path} [read gated by INITIALIZED]", conf and val == inited, f"UnsafeCell read only on the state == {val} edge" if conf and val == inited else f"read not confined to state == INITIALIZED (gate value {val}, INITIALIZED {inited}, confined={conf})", reads[0].loc())
+                    if cst[2] == inited:
+                        return ("P", "N") if s[1] == "Eq" else ("N", "P")
+                    return ("N", "T") if s[1] == "Eq" else ("T", "N")
+            return None
+
+        lflow = PredFlow(load, lambda subj, v: None, cbool)
+        conf = lflow.at(reads[0].bb) == "P"
+        chk.ob("C02.b", f"{load.path} [read gated by INITIALIZED]", conf, f"UnsafeCell read reachable only when the loaded state == {inited}" if conf else f"the UnsafeCell read is not confined to state == INITIALIZED ({inited}): a half-installed recorder can be observed", reads[0].loc())
 
     # ---- C02.c hand-back
-    errs = aggregates(setf, "SetRecorderError")
-    sy = Sym(setf)
+    errs = aggregates(sgr, "SetRecorderError")
     good_err_blocks = []
     for f, bb, k, s in errs:
-        op = strip_sym(sy.operand(s["rv"]["ops"][0]))
-        if sym_arg(op) is not None and sym_arg(op)[0] == 1:
+        op = strip_sym(Sym(f).operand(s["rv"]["ops"][0]))
+        if sym_arg(op) is not None and sym_arg(op)[0] == 0 and f is sgr:
             good_err_blocks.append(bb)
         else:
-            chk.ob("C02.c", f"{setf.path} [Err payload]", False, f"SetRecorderError built from {sym_str(op)}, expected the `recorder` parameter itself", f"{setf.file}:{s['ln']}")
+            chk.ob("C02.c", f"{sgr.path} [Err payload]", False, f"SetRecorderError built from {sym_str(op)[:80]}, expected the `recorder` parameter itself", f"{sgr.file}:{s.get('ln')}")
     if good_err_blocks:
-        chk.ob("C02.c", f"{setf.path} [Err payload]", True, "SetRecorderError(recorder) built from the parameter", setf.loc())
-    if edges and ok_edge:
-        okedge = (casc.t["target"], edges["Ok"])
-        boxes = [c for c in nonforeign_calls(setf) if c.is_("Box<T, A>::leak", "Box::leak", "Box<T>::leak", "mem::forget", "ManuallyDrop<T>::new", "Box<T, A>::into_raw", "Box<T>::into_raw")]
-        bad = [c for c in boxes if not b.edge_dominates(okedge, c.bb)]
-        chk.ob("C02.c", f"{setf.path} [allocation only on success]", boxes and not bad, "Box::leak (and any other ownership-releasing call) confined to the success edge" if boxes and not bad else f"allocation/leak reachable on the failure path: {[c.resolved for c in bad]}" if bad else "no Box::new/leak found", setf.loc())
-        # every return is preceded by store(INITIALIZED) or by a good Err construction
-        cut = set(good_err_blocks) | {stc.bb}
-        reach = b.reachable(0, cut)
-        rets = [r for r in b.return_blocks() if r in reach]
-        chk.ob("C02.c", f"{setf.path} [every exit installs or hands back]", not rets, "every return path passes through store(INITIALIZED) or Err(SetRecorderError(recorder))" if not rets else "a return is reachable that neither installs nor hands the recorder back", setf.loc())
-    drops = [(i, b.term(i)) for i in range(b.n) if b.term(i)["k"] == "drop" and b.term(i)["p"]["l"] == 2 and not b.blocks[i].get("cleanup")]
-    chk.ob("C02.c", f"{setf.path} [no drop of the parameter]", not drops, "the recorder parameter is never dropped on a normal path" if not drops else "the recorder parameter is dropped on a normal (non-unwind) path", setf.loc())
+        chk.ob("C02.c", f"{sgr.path} [Err payload]", True, "SetRecorderError(recorder) built from the parameter", sgr.loc())
+    boxes = [c for c in nonforeign_calls(sgr) if c.is_("Box<T, A>::leak", "Box::leak", "Box<T>::leak", "mem::forget", "ManuallyDrop<T>::new", "Box<T, A>::into_raw", "Box<T>::into_raw")]
+    bad = [c for c in boxes if flow.at(c.bb) != "P"]
+    chk.ob("C02.c", f"{sgr.path} [allocation only on success]", boxes and not bad, "Box::leak (and any other ownership-releasing call) reachable only after the CAS succeeded" if boxes and not bad else f"allocation/leak reachable on the failure path: {[c.resolved for c in bad]}" if bad else "no Box::leak found", sgr.loc())
+    cut = set(good_err_blocks) | {stc.bb}
+    reach = b.reachable(0, cut)
+    rets = [r for r in b.return_blocks() if r in reach]
+    chk.ob("C02.c", f"{sgr.path} [every exit installs or hands back]", not rets, "every return path passes through the publishing write or Err(SetRecorderError(recorder))" if not rets else "a return is reachable that neither installs nor hands the recorder back", sgr.loc())
+    drops = [d for d in drop_blocks_of(b, 1) if not b.blocks[d].get("cleanup")]
+    chk.ob("C02.c", f"{sgr.path} [no drop of the parameter]", not drops, "the recorder parameter is never dropped on a normal path" if not drops else "the recorder parameter is dropped on a normal (non-unwind) path", sgr.loc())
 
     witness_rule(ctx, "C02.d", "C02")
+
+
+def _recv_types(fn, c):
+    """Types along the receiver place of an atomic call (to recognise fields of the cell type)."""
+    out = []
+    a = c.args[0] if c.args else None
+    seen = set()
+
+    def walk_local(l, depth=0):
+        if l in seen or depth > 12:
+            return
+        seen.add(l)
+        for d in fn.body.defs().get(l, []):
+            if d[0] == "assign":
+                rv = d[3]["rv"]
+                p = rv.get("p") or (rv.get("a") or {}).get("copy") or (rv.get("a") or {}).get("move")
+                if isinstance(p, dict) and "l" in p:
+                    for e in p.get("pr") or []:
+                        if isinstance(e, dict) and "of" in e:
+                            out.append(e["of"])
+                    walk_local(p["l"], depth + 1)
+                c_ = (rv.get("a") or {}).get("const") if isinstance(rv.get("a"), dict) else None
+                if c_:
+                    out.append(c_.get("ty", ""))
+
+    if a is not None:
+        p = a.get("copy") or a.get("move")
+        if p:
+            for e in p.get("pr") or []:
+                if isinstance(e, dict) and "of" in e:
+                    out.append(e["of"])
+            walk_local(p["l"])
+    return out
 
 
 def _uses_static(fn, path):
@@ -189,7 +272,7 @@ def _uses_static(fn, path):
     for c in fn.body.calls():
         if path in repr(c.t.get("args")):
             return True
-    return False
+    return path in repr(fn.promoted_bodies())
 
 
 def run_config(ctx):
